@@ -55,7 +55,7 @@ def check(run, only=None):
                 "an invalid byte, tag keywords) and every byte-prefix of them (all with <= 2 fragments, seeded stride of 3); plus "
                 "every prefix and single-byte deletion of 14 corpus templates and seeded random byte strings, fragment strings, "
                 "insertions and deletions; plus the structured sources of C20_Src.tla, Mix_Src.tla and C06_Src.tla (tag nestings, closers, "
-                "else/elseif placement); 14 long flat runs (300000 prefix operators, postfix steps, conditionals, ** links, elseif "
+                "else/elseif placement); 28 long flat runs (300000 prefix operators, postfix steps, conditionals, ** links, elseif "
                 "branches, list elements, prints; a million + and ~ links) under a 64 MB stack limit; observed: parse.Parse, Env.Parse, Env.Execute (core and Twig) return; non-trivial = source "
                 "contains an opening delimiter")
     run.assumptions = ["a token stream that differs from spec/Lexer.tla is counted as spec drift, not as a C01 violation (C14/C20 judge tokens)"]
@@ -90,7 +90,14 @@ def check(run, only=None):
             ("{{ ", "a?a:", "a }}", n), ("{{ a", "**a", " }}", n), ("{% if a %}", "{% elseif a %}", "{% endif %}", n),
             ("{{ a", "+a", " }}", 1000000), ("{{ a", " ~ 'x'", " }}", 1000000), ("{{ [", "a,", "a] }}", n), ("", "{{ a }}x", "", n),
             # the parts of an interpolated string; a sum of sums in parentheses (levels x links)
-            ('{{ "', "#{a}", '" }}', 1000000), ("{{ " + "(" * 300, "a" + "+1" * 5000 + ")", " }}", 300)]
+            ('{{ "', "#{a}", '" }}', 1000000), ("{{ " + "(" * 300, "a" + "+1" * 5000 + ")", " }}", 300),
+            # every list the parser reads and every place where one more word may follow: names after a test, chained tests,
+            # juxtaposed names, arguments, hash entries, import lists, parameter lists, alias lists, loop variables, filter chains
+            ("{{ a is", " b", " }}", 1000000), ("{{ a is not", " b", " }}", 1000000), ("{{ a", " is b", " }}", n), ("{{ a", " b", " }}", n),
+            ("{{ f(", "a,", "a) }}", n), ("{{ {", "a:1,", "a:1} }}", n), ("{% from 'p' import ", "a,", "a %}", n),
+            ("{% macro m(", "a,", "a) %}{% endmacro %}", n), ("{% use 'p' with ", "a as b,", "a as b %}", n),
+            ("{% for ", "a,", "a in b %}{% endfor %}", n), ("{% filter f", "|f", " %}{% endfilter %}", n), ("{{ 1", ".1", " }}", n),
+            ("{{ a is divisible", " by", "(3) }}", n), ("{% import 'p' as ", "a ", "%}", n)]
     fc = [{"id": "C01-flat-%d" % i, "k": "total", "noexec": True, "rep": [a, b, c], "repn": k, "maxstack": 64, "src": [], "dl": 60000}
           for i, (a, b, c, k) in enumerate(flat)]
     fobs, _ = common.run_pool(fc, deadline_ms=60000, workers=4)
